@@ -64,6 +64,10 @@ CLAIMS = {
    text='Partial: the two inactivity counters (Opus generalised DTX in decide_dtx_mode, SILK in silk_encode_do_VAD_FLP/FIX) are extracted from the source as finite automata by partitioned abstract interpretation and explored exhaustively for all nine legal frame durations: the first DTX decision falls within one frame of the 200 ms mark, a DTX run is shorter than 400 ms + one frame and is followed by a refresh frame, activity resets counter and decision; both detectors share thresholds and nothing else writes the counters; OPUS_GET_IN_DTX is true on every DTX frame; a DTX decision (and the SILK nBytes==0 path) emits only the TOC byte, zero final range, length 1; the counter is cleared when DTX is off / analysis invalid; the frame length is passed exactly in Q1 ms; multi-frame packets count DTX frames; the decoder routes <=1-byte payloads to concealment bounded by the TOC duration. Activity classification of a given signal, decoder output level in the gap, and absence of tiny packets with DTX off are NOT decided.',
    note=TRUST,
    technique='automaton extraction by value-partitioned abstract interpretation of the (loop-free) decision functions + exhaustive exploration of the extracted automaton; control-dependence region effects; dominance facts'),
+ 'C13': dict(category='other',
+   text='Partial: (1) at every call site the format-specific helper handed to the native encoder/decoder (down-mix reader, channel copy-in/out) accesses the caller\'s untyped PCM buffer with that buffer\'s element type - the helper/buffer pairing is derived from the indirect calls and propagated through forwarding calls, over single-stream, multistream and projection entry points in four build configurations; (2) soft clipping is requested only by the 16-bit decoders of the float build and covers exactly the returned samples; (3) scale constants agree (x256 between 16- and 24-bit input, output x input = 1); (4) each entry point declares the depth of its format and lsb_depth is capped by the user setting before any use; (5) each helper converts every sample it reads the same way; (6) every public PCM entry point reaches the single native path exactly once. One genuine defect found by (1) was repaired (projection encode24). Packet identity across formats and exact rounding relations are NOT decided.',
+   note=TRUST,
+   technique='derived function-pointer/buffer pairing (fixpoint over indirect and forwarding calls) + type agreement of casts; constant-argument rule; expression normalisation for sibling agreement; constant folding of conversion scales'),
 }
 
 NA_REASON = {
